@@ -196,8 +196,9 @@ func removePoolObj(s *Spec, k int) *Spec {
 }
 
 type absDec struct {
-	at int64
-	to int32
+	at  int64
+	to  int32
+	hot bool
 }
 
 func decToAbs(d []verifsim.Decision) []absDec {
@@ -209,7 +210,7 @@ func decToAbs(d []verifsim.Decision) []absDec {
 			g = 1
 		}
 		at += g
-		out[i] = absDec{at: at, to: x.To}
+		out[i] = absDec{at: at, to: x.To, hot: x.Hot}
 	}
 	return out
 }
@@ -223,7 +224,7 @@ func absToDec(a []absDec) []verifsim.Decision {
 			g = 1
 		}
 		prev += g
-		out = append(out, verifsim.Decision{Gap: int32(g), To: x.to})
+		out = append(out, verifsim.Decision{Gap: int32(g), To: x.to, Hot: x.hot})
 	}
 	return out
 }
